@@ -96,6 +96,28 @@ def load_known():
         return json.load(f)["findings"]
 
 
+def case_key(case):
+    """identity of a case (the input of run_case), independent of what the library does with it"""
+    try:
+        c = {k: v for k, v in case.items() if not str(k).startswith("_")} if isinstance(case, dict) else case
+    except Exception:
+        c = case
+    return "%012x" % (h64(json.dumps(c, sort_keys=True, default=str)) & 0xFFFFFFFFFFFF)
+
+
+def witness_file(prop):
+    return os.path.join(VERIF_DIR, "known_witnesses", prop + ".json")
+
+
+def load_witnesses(prop):
+    """signature -> set of case keys that fail with that (known) signature on the reference tree, or {} when not recorded"""
+    try:
+        with open(witness_file(prop)) as f:
+            return {k: set(v) for k, v in json.load(f).items()}
+    except Exception:
+        return {}
+
+
 def _work(args):
     modname, chunk = args
     mod = sys.modules[modname]
@@ -208,13 +230,37 @@ def run_check(mod, tier, seed, only_case=None):
         for v in r["viol"]:
             by_sig.setdefault(v["sig"], []).append(v)
     new_sigs, known_seen = [], []
-    for sig, vs in by_sig.items():
+    # A known finding is identified by its root-cause signature AND by the inputs that fail with it on the reference tree
+    # (known_witnesses/<prop>.json, written by tools/record_witnesses.py, never at run time): an input that newly fails with
+    # a known signature is a different violation and is reported as such.
+    recorded = load_witnesses(prop)
+    record = os.environ.get("VERIF_RECORD_WITNESSES")
+    to_record = {}
+    for sig, vs in list(by_sig.items()):
         k = known.get((prop, sig))
         if k is not None and k.get("status") == "known":
             known_seen.append(sig)
             print("KNOWN-FINDING: property=%s %s [%s; %d witnesses]" % (prop, k["what_fails"], sig, len(vs)))
+            if record:
+                to_record[sig] = sorted({case_key(v["case"]) for v in vs})
+            elif sig in recorded:
+                fresh = [v for v in vs if case_key(v["case"]) not in recorded[sig]]
+                if fresh:
+                    nsig = sig + "|new-witness"
+                    for v in fresh:
+                        v = dict(v)
+                    by_sig[nsig] = [dict(v, what=v["what"] + " (this input does not fail on the reference tree; the known finding "
+                                         "of this signature covers other inputs)") for v in fresh]
+                    new_sigs.append(nsig)
         else:
             new_sigs.append(sig)
+    if record:
+        os.makedirs(os.path.dirname(witness_file(prop)), exist_ok=True)
+        old = {k_: set(v_) for k_, v_ in load_witnesses(prop).items()}
+        for sig, keys in to_record.items():
+            old.setdefault(sig, set()).update(keys)
+        with open(witness_file(prop), "w") as f:
+            json.dump({k_: sorted(v_) for k_, v_ in sorted(old.items())}, f, separators=(",", ":"))
     rc = 0
     rdir = os.path.join(OUT_DIR, "replays", prop)
     for i, sig in enumerate(new_sigs):
